@@ -157,6 +157,26 @@ pub struct OpInfo<'m> {
 pub type OpObserver = Box<dyn FnMut(&OpInfo<'_>) + Send>;
 pub static OP_OBSERVER: std::sync::Mutex<Option<OpObserver>> = std::sync::Mutex::new(None);
 
+#[derive(Clone, Debug)]
+pub enum ScriptOp {
+    Commit(usize),
+    Rollback(usize),
+    Reopen,
+}
+
+/// directed histories selectable with `--focus script-…`
+pub fn script_for(focus: &str) -> Option<Vec<ScriptOp>> {
+    use ScriptOp::*;
+    match focus {
+        // 7 commits = 4 rollback segments of two records (8 KiB segments), then a rollback that drops
+        // several whole tail segments, then more activity
+        "script-rollback-multi-segment" => Some(vec![Commit(3), Commit(2), Commit(4), Commit(2), Commit(3), Commit(2), Commit(3), Rollback(5), Commit(2), Rollback(1), Reopen, Rollback(2)]),
+        // the log start is pruned past whole segments (maxlog 3), then everything retained is rolled back
+        "script-prune-then-rollback-all" => Some(vec![Commit(2), Commit(2), Commit(2), Commit(2), Commit(2), Commit(2), Commit(2), Rollback(3), Reopen, Commit(2), Rollback(1)]),
+        _ => None,
+    }
+}
+
 pub struct Engine<'a> {
     pub rng: Rng,
     pub out: &'a mut Sink,
@@ -181,6 +201,7 @@ pub struct Engine<'a> {
     pub matrix_variant: Option<usize>,
     pub witness_on: bool,
     pub dense: bool,
+    pub script: Option<Vec<ScriptOp>>,
     pub force_witness: bool,
     pub events: BTreeMap<String, u64>,
     /// C16 image mode: when set, every quiescent point (`check_committed`) hands the directory and
@@ -221,6 +242,7 @@ impl<'a> Engine<'a> {
             matrix_variant: None,
             witness_on: false,
             dense: false,
+            script: None,
             force_witness: false,
             events: BTreeMap::new(),
             image_sink: None,
@@ -1290,6 +1312,33 @@ impl<'a> Engine<'a> {
 
     pub fn step(&mut self, weights: &[(usize, &str)]) {
         if !self.alive() {
+            return;
+        }
+        // scripted (directed) histories for the crash / fault checks
+        if let Some(script) = self.script.as_mut() {
+            if script.is_empty() {
+                return;
+            }
+            let op = script.remove(0);
+            match op {
+                ScriptOp::Commit(n) => {
+                    let ws: Vec<(Key, Option<Val>)> = (0..n)
+                        .map(|_| {
+                            let k = self.gen_key();
+                            let v = if self.rng.chance(1, 5) { None } else { Some(gen_value(&mut self.rng, false)) };
+                            (k, v)
+                        })
+                        .collect();
+                    let mut ws = ws;
+                    ws.sort_by(|a, b| a.0.cmp(&b.0));
+                    ws.dedup_by(|a, b| a.0 == b.0);
+                    if let Some(fid) = self.session_writes(&[], &ws) {
+                        self.commit_fin(fid, false);
+                    }
+                }
+                ScriptOp::Rollback(n) => self.op_rollback_n(n),
+                ScriptOp::Reopen => self.op_reopen(),
+            }
             return;
         }
         let total: usize = weights.iter().map(|w| w.0).sum();
